@@ -429,6 +429,17 @@ def r5_state_machine(ctx, f, rep, eff):
                      ('Foca::reset', ['Foca::change_identity', 'Foca::reuse_down_identity'])):
         cs = sorted({c[0].nname for c in f.callers_of(lambda x: x == fn)})
         rep.check(cs == want, 'C08-R5', fn, 'called only from %s' % want, construct='callers', facts={'callers': cs})
+    # leave_cluster declares the own identity Down: whatever the state it is called in, every path that does not fail ends
+    # in become_undead (Defunct) - an early return for "nothing to tell anybody" leaves the instance alive
+    lc = f.fn('Foca::leave_cluster')
+    nl = 0
+    for p in ctx.paths(f, lc, 'none'):
+        if p.end != 'return' or q.path_is_error_propagation(p):
+            continue
+        nl += 1
+        rep.check(any(e['res'] == 'Foca::become_undead' for e in p.calls()), 'C08-R5', lc.nname,
+                  'leave_cluster always ends in become_undead (Defunct)', construct='leave-always-defunct')
+    rep.floor('C08-R5', nl, 1, 'returning paths of leave_cluster')
     # become_undead in handle_self_update: only when attempt_rejoin returned Ok(false)
     hs = f.fn('Foca::handle_self_update')
     n = 0
